@@ -1048,6 +1048,11 @@ func (fg *FuncGen) loopHead(li *loopInfo) {
 	}
 	sort.Slice(cs, func(i, j int) bool { return cs[i].Name() < cs[j].Name() })
 	fg.cur = st
+	// the allocation counter first: everything havocked below may refer to objects allocated by
+	// earlier iterations, i.e. anything below the counter's value at the head
+	if ms.ghosts["$alloc"] {
+		fg.bumpAlloc(st)
+	}
 	for _, a := range cs {
 		if _, ok := st.cells[a]; !ok {
 			continue // declared inside the loop
@@ -1070,8 +1075,7 @@ func (fg *FuncGen) loopHead(li *loopInfo) {
 			continue
 		}
 		if gname == "$alloc" {
-			fg.bumpAlloc(st)
-			continue
+			continue // done first
 		}
 		st.ghost[gname] = fg.enc.declConst(fg.enc.freshName(gname), srt)
 		if gname == "$seq" || strings.HasPrefix(gname, "$calls:") || strings.HasPrefix(gname, "$iter:") {
